@@ -6,6 +6,10 @@ props = [json.loads(l) for l in open(os.path.join(ROOT, "properties.jsonl"))]
 
 # id -> (technique, level text, level note, design ref)
 CHECKS = {
+ "C07": ("round-trip and metamorphic property test over constructed trees with adversarial strings and over parsed trees; decode oracle inverting the five entities",
+         "serialize + parse_fragment reproduces constructed trees over the ordinary vocabulary; IncludeNode == start tag + ChildrenOnly(Some(name)) + end tag on every non-void element of constructed and parsed trees for both scripting settings; every attribute/text run decodes back to the original, verbatim iff under an HTML raw-text element.",
+         "Attribute values and text are generated free of CR and NUL; void elements exempt from inner==outer.",
+         "DESIGN.md 4 C07"),
  "C04": ("robustness fuzzing with a validity oracle: generated HTML/XML x options x chunkings in-process under deterministic step budgets (hook H1), pathological shapes in child processes with a watchdog",
          "No panic/abort/signal, queue empty after every Done, end()/finish() return, exactly one EOF delivered last (counted by a forwarding TokenSink), step counters within a linear budget; 80 pathological shape families at sizes up to 3000 (quick) / 60000+ (thorough) in child processes with an 8 MiB stack.",
          "A watchdog timeout is inconclusive, not a violation; profile=true is exercised by C08.",
